@@ -46,7 +46,8 @@ REQUIRED = ["check_order_irrelevant_for_accept", "valid_only_if", "key_is_from_t
             # deepening round 3: revocation lookup (leia store read -> IsRevoked -> Verify) inside the model
             "isRevoked_no_iff", "isRevoked_error_iff", "getRevocations_found_iff", "getRevocation_never_panics",
             "reported_valid_only_if_store_answered_empty", "store_read_fault_is_never_valid", "any_stored_document_blocks_validity",
-            "fact_revocation_lookup_flow",
+            "fact_revocation_lookup_flow", "registered_revocation_is_authentic", "stored_revocations_are_authentic",
+            "registered_revocation_is_permanent", "revoked_only_by_the_credential_issuer", "findIn_never_errors", "fact_register_revocation_sequence",
             # deepening round 3: S2S token handler's presentation checks (auth/api/iam) inside the model
             "presenterIsCredentialSubject_some_iff", "validated_signer_is_subject_of_every_credential", "s2s_validity_is_bounded",
             "s2s_envelope_is_by_one_subject", "s2s_refuses_foreign_credential", "fact_s2s_presentation_checks"]
@@ -662,6 +663,48 @@ def run(ctx):
                               "s2s-presentation_" + why[0] + ".jsonl", ops_raw[i] + "\n")
     ctx.cov["s2s_presentation_ops"] = dict(Counter(re.sub(r"signer=did:\S+", "signer=<did>", impl[i]) for i, op in enumerate(ops) if op.get("op") == "s2s-vp"))
     ctx.oblige("oracle:s2s-envelope-is-by-one-subject-of-every-credential-and-short-lived(impl)", s2_bad == 0 and (n_s2 > 0 or bool(ctx.replay)), f"{s2_bad} wrong of {n_s2}")
+
+    # deepening round 3: RegisterRevocation.  Clause (integrity of "not revoked"): a revocation takes effect only if it names a credential id
+    # <issuer>#<fragment>, is issued by that issuer and its proof verifies (measured) under a key that is an assertion method of that issuer
+    # at the revocation's date; recomputed from the view + the world's DID history, independent of the model.
+    rr_bad = n_rr = 0
+    rr_hist = {}
+
+    def rr_key_authorised(did_, at_ms, kid, sig_keys):
+        vs = [x for x in rr_hist.get(did_, []) if x["from"] <= at_ms]
+        if not vs or vs[-1].get("deact"):
+            return False
+        base_ = vs[-1].get("base") or None
+        return any((a[0] == kid or (base_ and a[0].startswith("#") and base_ + a[0] == kid)) and a[1] in (sig_keys or []) for a in vs[-1]["assertion"])
+    for i, op in enumerate(ops):
+        if op.get("op") == "world":
+            rr_hist = op.get("hist") or {}
+        if op.get("op") == "reset":
+            rr_hist = {}
+        if op.get("op") != "regrev":
+            continue
+        n_rr += 1
+        v = op.get("rev") or {}
+        accepted = impl[i].startswith("ok")
+        took_effect = " revoked=true" in impl[i]
+        issuer = v.get("issuer") or ""
+        authentic = bool(v.get("fragment")) and issuer != "" and (v.get("subject") or "").split("#")[0] == issuer and \
+            (v.get("vm") or "").split("#")[0] == issuer and v.get("hasProof") and v.get("proofDecodes") and \
+            rr_key_authorised(issuer, v.get("date"), v.get("vm"), v.get("sigKeys"))
+        why = None
+        if impl[i].startswith("panic"):
+            why = "RegisterRevocation-panics"
+        elif (accepted or took_effect) and not authentic:
+            why = "revocation-not-signed-by-the-credential-issuer-takes-effect"
+        elif accepted != took_effect:
+            why = "registered-revocation-has-no-effect" if accepted else "refused-revocation-takes-effect"
+        elif op.get("label", "").endswith(":genuine") and not accepted:
+            why = "own-revocation-refused"
+        if why:
+            rr_bad += 1
+            ctx.violation("C01:register-revocation:" + why, f"{op.get('label')}: {impl[i]} for {json.dumps(v)[:400]}", "register-revocation_" + why + ".jsonl", replay_text(i))
+    ctx.cov["register_revocation_ops"] = dict(Counter(impl[i] for i, op in enumerate(ops) if op.get("op") == "regrev"))
+    ctx.oblige("oracle:only-the-credential-issuers-signed-revocation-takes-effect(impl)", rr_bad == 0 and (n_rr > 0 or bool(ctx.replay)), f"{rr_bad} wrong of {n_rr}")
 
     # revocation is permanent from the verifier's point of view: once a verification of a document reported "revoked", every later
     # verification of the same document on that node reports revoked (refreshes of a status list must not resurrect it)
